@@ -86,8 +86,16 @@ impl Projector {
                     }
                 };
 
+                // a block reference names a note whatever its name looks like ("node.js",
+                // "v1.2"): spelled with ".md", it gets the configured extension when written
+                let url = iter.ref_key2().unwrap().to_rel_link_url(&self.parent);
+                let url = match iter.ref_type().unwrap() {
+                    ReferenceType::Regular => format!("{}.md", url),
+                    _ => url,
+                };
+
                 let link = GraphInline::Link(
-                    iter.ref_key2().unwrap().to_rel_link_url(&self.parent),
+                    url,
                     String::default(),
                     iter.ref_type().unwrap().to_link_type(),
                     inlines,
